@@ -1,13 +1,14 @@
 """Runs pieces of stackscope's real source in isolation (fail-closed): the exception-table walk
 and the running-frame trim of _lowlevel_cpython_311.inspect_frame are cut out of the function's
 AST and compiled into standalone functions, so that they can be evaluated at EVERY (code, lasti)
-rather than only on the live frames a test happens to have.  If the source no longer has the
-recognised shape, `load()` raises SnippetError and the caller reports that the correspondence can
-no longer be checked."""
+rather than only on the live frames a test happens to have.  Recognition is by shape, not by the
+names of locals.  If the source no longer has a recognised shape, `load()` raises SnippetError and
+the caller reports that the correspondence can no longer be checked."""
 from __future__ import annotations
 
 import ast
 import bisect
+import builtins
 import os
 
 from .common import REPO
@@ -17,8 +18,29 @@ class SnippetError(Exception):
     pass
 
 
-def _uses(node, name):
-    return any(isinstance(x, ast.Name) and x.id == name for x in ast.walk(node))
+def _calls(node, name):
+    return any(isinstance(x, ast.Call) and isinstance(x.func, ast.Name) and x.func.id == name for x in ast.walk(node))
+
+
+def _stored(nodes):
+    out = set()
+    for n in nodes:
+        for x in ast.walk(n):
+            if isinstance(x, ast.Name) and isinstance(x.ctx, ast.Store):
+                out.add(x.id)
+    return out
+
+
+def _loaded(nodes):
+    out = []
+    for n in nodes:
+        for x in ast.walk(n):
+            if isinstance(x, ast.Name) and isinstance(x.ctx, ast.Load) and x.id not in out:
+                out.append(x.id)
+    return out
+
+
+KNOWN = {"_parse_exception_table", "bisect", "FrameDetails"} | set(dir(builtins))
 
 
 def load():
@@ -27,54 +49,75 @@ def load():
     fn = next((n for n in ast.walk(tree) if isinstance(n, ast.FunctionDef) and n.name == "inspect_frame"), None)
     if fn is None:
         raise SnippetError("inspect_frame not found")
-    # (1) trim: the first `for ... in _parse_exception_table(co): ... else: handler_depth = ...`
-    trim = None
-    for n in ast.walk(fn):
-        if (isinstance(n, ast.For) and n.orelse and _uses(n.iter, "_parse_exception_table")
-                and any(isinstance(x, ast.Name) and x.id == "handler_depth" and isinstance(x.ctx, ast.Store)
-                        for x in ast.walk(n))):
-            trim = n
+    frame_arg = fn.args.args[0].arg if fn.args.args else "frame"
+    # the code object local: `<co> = <frame>.f_code`
+    co_name = None
+    for x in ast.walk(fn):
+        if (isinstance(x, ast.Assign) and len(x.targets) == 1 and isinstance(x.targets[0], ast.Name)
+                and isinstance(x.value, ast.Attribute) and x.value.attr == "f_code"):
+            co_name = x.targets[0].id
             break
+    if co_name is None:
+        raise SnippetError("no `co = frame.f_code` in inspect_frame")
+
+    # (1) trim: `for ... in _parse_exception_table(co): if <cond>: <d> = depth; break  else: <d> = 0`
+    trim = depth_var = None
+    for n in ast.walk(fn):
+        if isinstance(n, ast.For) and n.orelse and _calls(n.iter, "_parse_exception_table"):
+            both = _stored(n.body) & _stored(n.orelse)
+            if len(both) == 1:
+                trim, depth_var = n, next(iter(both))
+                break
     if trim is None:
-        raise SnippetError("handler_depth loop not found in inspect_frame")
-    # (2) chain walk: from `handlers = list(_parse_exception_table(co))` to `details.blocks.reverse()`
+        raise SnippetError("handler-depth scan (for ... else over the exception table) not found in inspect_frame")
+    free = [v for v in _loaded([trim]) if v not in KNOWN and v != co_name and v not in _stored([trim])]
+    if len(free) != 1:
+        raise SnippetError("handler-depth scan depends on %r, expected exactly the instruction position" % (free,))
+    trim_lasti = free[0]
+
+    # (2) chain walk: the top-level statements from the first `<x> = list(_parse_exception_table(co))`
+    #     after the retry loop up to the `<details>.blocks.reverse()` call
     body = fn.body
     start = end = None
+    details_name = None
     for i, st in enumerate(body):
         if (start is None and isinstance(st, ast.Assign) and len(st.targets) == 1
-                and isinstance(st.targets[0], ast.Name) and st.targets[0].id == "handlers"):
+                and isinstance(st.targets[0], ast.Name) and _calls(st.value, "_parse_exception_table")):
             start = i
         if (start is not None and isinstance(st, ast.Expr) and isinstance(st.value, ast.Call)
                 and isinstance(st.value.func, ast.Attribute) and st.value.func.attr == "reverse"
-                and _uses(st.value.func, "details")):
+                and isinstance(st.value.func.value, ast.Attribute) and st.value.func.value.attr == "blocks"
+                and isinstance(st.value.func.value.value, ast.Name)):
             end = i
+            details_name = st.value.func.value.value.id
             break
     if start is None or end is None:
         raise SnippetError("exception-table walk not found at the top level of inspect_frame")
     walk = body[start:end + 1]
+    assigned = _stored(walk)
+    free = [v for v in _loaded(walk) if v not in KNOWN and v not in assigned and v not in (co_name, details_name)]
+    if len(free) != 1:
+        raise SnippetError("exception-table walk depends on %r, expected exactly the accepted instruction position" % (free,))
+    walk_lasti = free[0]
     for st in walk:
-        for x in ast.walk(st):
-            if isinstance(x, ast.Name) and isinstance(x.ctx, ast.Load) and x.id not in (
-                    "handlers", "current", "idx", "start", "end", "target", "depth", "details", "lasti", "co",
-                    "bisect", "list", "_parse_exception_table", "FrameDetails", "_", "True", "False", "len"):
-                raise SnippetError("exception-table walk uses unexpected name %r" % x.id)
+        if any(isinstance(x, ast.Attribute) and isinstance(x.value, ast.Name) and x.value.id == frame_arg for x in ast.walk(st)):
+            raise SnippetError("exception-table walk reads the frame again")
 
     def mkfn(name, args, stmts, ret):
-        f = ast.FunctionDef(name=name, args=ast.arguments(posonlyargs=[], args=[ast.arg(arg=a) for a in args],
-                                                          kwonlyargs=[], kw_defaults=[], defaults=[]),
-                            body=list(stmts) + [ast.Return(value=ast.parse(ret, mode="eval").body)],
-                            decorator_list=[], type_params=[])
-        return f
+        return ast.FunctionDef(name=name, args=ast.arguments(posonlyargs=[], args=[ast.arg(arg=a) for a in args],
+                                                             kwonlyargs=[], kw_defaults=[], defaults=[]),
+                               body=list(stmts) + [ast.Return(value=ast.parse(ret, mode="eval").body)],
+                               decorator_list=[], type_params=[])
 
-    mod = ast.Module(body=[mkfn("_trim", ["co", "lasti_before"], [trim], "handler_depth"),
-                           mkfn("_walk", ["co", "lasti", "details"], walk, "details.blocks")], type_ignores=[])
+    mod = ast.Module(body=[mkfn("_trim", [co_name, trim_lasti], [trim], depth_var),
+                           mkfn("_walk", [co_name, walk_lasti, details_name], walk, details_name + ".blocks")],
+                     type_ignores=[])
     ast.fix_missing_locations(mod)
     from stackscope import _lowlevel as ll
     ns = {"_parse_exception_table": ll._parse_exception_table, "bisect": bisect, "FrameDetails": ll.FrameDetails}
     exec(compile(mod, path + "<snippets>", "exec"), ns)
 
     def blocks(co, lasti):
-        d = ll.FrameDetails()
-        return ns["_walk"](co, lasti, d)
+        return ns["_walk"](co, lasti, ll.FrameDetails())
 
     return ns["_trim"], blocks
